@@ -29,8 +29,25 @@
     otherwise the result is an error value -- never a deferral or a panic;
     [C03_bad_attrs_rejected], [C03_packed_with_align_never_accepted] (no class hypothesis).
     The first theorem keeps its historical [_partial] suffix (its statement is pinned).
-    NOT PROVED: the same equivalence for types with a vftable block, base fields or the
-    defaultable marker (their layout parts are C01/C02/C06; acceptance there is compared per run). *)
+    THE LARGER CLASSES (C03Tail.v, C03Bases.v, C03Vft.v; the decision code re-proved from any starting
+    accumulator, without hypothesis on base markers):
+    [C03_bases_type_build_accepts_iff] -- fields may carry `#[base]`, the type may have an impl
+    block and the `defaultable` marker ([class_bases_okb]: only known sizes / power-of-two alignments
+    / numbers within usize are required): the whole [type_build] returns Ok exactly when the
+    attributes are well formed, the description is [realisable] -- a base is one member with the
+    size and alignment of its type -- and [extras_okb] holds, the decidable conjunction of what the
+    code demands besides the layout: the first `base` field is named and its type is a resolved
+    struct, so is every kept `base` field, every impl function converts under a fresh name, and with
+    `defaultable` every region (padding included) has a defaultable type;
+    [C03_vft_type_build_accepts_iff] -- the same with a vftable block (own pointer laid out first, or
+    the pointer shared with a polymorphic first base): additionally the block converts
+    ([C03_vftable_block_converts_iff]: no negative index/size, no index below a function's position,
+    size not below the slot count, every function converts) and the layout is [realisable] for the
+    pointer followed by the fields, sizes read in the registry AFTER the table was registered;
+    [_size_align] and [_rejects_otherwise] (an error value, never a deferral or a panic) for both;
+    [C03_own_vftable_never_defaultable]; [C03_plain_class_is_a_special_case].
+    NOT PROVED: descriptions with unresolved / unsized field types (the deferral paths, C10),
+    alignments that are not powers of two, a vftable block that is not the first statement. *)
 From Coq Require Import List NArith Bool.
 From PyxisModel Require Import Base Grammar SemTypes Registry Sem PlacementLemmas C03Core.
 From PyxisModel Require C03Refine.
@@ -38,6 +55,8 @@ Import ListNotations.
 Local Open Scope N_scope.
 
 From PyxisModel Require C03Whole.
+
+From PyxisModel Require C03Tail C03Bases C03Vft.
 
 Definition C03_full_statement : Prop :=
   forall ptr fs size align packed, wf_fields fs ->
@@ -167,3 +186,97 @@ Theorem C03_packed_with_align_never_accepted :
     C03Whole.declared_align d <> None -> type_build st p v d <> (st', Ok r).
 Proof. exact C03Whole.packed_with_align_never_accepted. Qed.
 Print Assumptions C03_packed_with_align_never_accepted.
+
+Theorem C03_bases_type_build_accepts_iff :
+  forall (st : sstate) (p : path) (v : vis) (d : gtypedef),
+    C03Bases.class_bases_okb st p d = true ->
+    (exists (st' : sstate) (r : resolved), type_build st p v d = (st', Ok r)) <->
+    C03Whole.attrs_okb d = true /\
+    C03Bases.C.realisable (reg_ptr (st_reg st)) (C03Whole.fields_of st p d) 
+      (C03Whole.declared_size d) (C03Whole.declared_align d) (C03Whole.is_packed d) /\
+    C03Bases.extras_okb st p d = true.
+Proof. exact C03Bases.C03_bases_type_build_iff. Qed.
+Print Assumptions C03_bases_type_build_accepts_iff.
+
+Theorem C03_bases_type_build_size_align :
+  forall (st : sstate) (p : path) (v : vis) (d : gtypedef) (st' : sstate) (r : resolved),
+    C03Bases.class_bases_okb st p d = true ->
+    type_build st p v d = (st', Ok r) ->
+    st' = st /\
+    C03Bases.C.accept (reg_ptr (st_reg st)) (C03Whole.fields_of st p d) (C03Whole.declared_size d)
+      (C03Whole.declared_align d) (C03Whole.is_packed d) = Some (rs_size r, rs_align r).
+Proof. exact C03Bases.C03_bases_type_build_size_align. Qed.
+Print Assumptions C03_bases_type_build_size_align.
+
+Theorem C03_bases_type_build_rejects_otherwise :
+  forall (st : sstate) (p : path) (v : vis) (d : gtypedef),
+    C03Bases.class_bases_okb st p d = true ->
+    ~
+    (C03Whole.attrs_okb d = true /\
+     C03Bases.C.realisable (reg_ptr (st_reg st)) (C03Whole.fields_of st p d) 
+       (C03Whole.declared_size d) (C03Whole.declared_align d) (C03Whole.is_packed d) /\
+     C03Bases.extras_okb st p d = true) -> exists msg : string, type_build st p v d = (st, Err msg).
+Proof. exact C03Bases.C03_bases_type_build_rejects_otherwise. Qed.
+Print Assumptions C03_bases_type_build_rejects_otherwise.
+
+Theorem C03_plain_class_is_a_special_case :
+  forall (st : sstate) (p : path) (d : gtypedef),
+    C03Whole.class_okb st p d = true ->
+    C03Bases.class_bases_okb st p d = true /\ C03Bases.extras_okb st p d = true.
+Proof. exact C03Bases.class_okb_bases. Qed.
+Print Assumptions C03_plain_class_is_a_special_case.
+
+Theorem C03_vft_type_build_accepts_iff :
+  forall (st : sstate) (p : path) (v : vis) (d : gtypedef),
+    C03Vft.class_vft_okb st p v d = true ->
+    (exists (st' : sstate) (r : resolved), type_build st p v d = (st', Ok r)) <->
+    C03Vft.attrs_vft_okb d = true /\
+    C03Vft.vtable_okb_of st p d = true /\
+    C03Vft.C.realisable (C03Vft.vft_ptr st p v d) (C03Vft.vft_fields st p v d)
+      (C03Whole.declared_size d) (C03Whole.declared_align d) (C03Whole.is_packed d) /\
+    C03Vft.vft_extras_okb st p v d = true.
+Proof. exact C03Vft.C03_vft_type_build_iff. Qed.
+Print Assumptions C03_vft_type_build_accepts_iff.
+
+Theorem C03_vft_type_build_size_align :
+  forall (st : sstate) (p : path) (v : vis) (d : gtypedef) (st' : sstate) (r : resolved),
+    C03Vft.class_vft_okb st p v d = true ->
+    type_build st p v d = (st', Ok r) ->
+    (exists vp : path, C03Vft.vft_after st p v d = Some (st', vp)) /\
+    C03Vft.C.accept (C03Vft.vft_ptr st p v d) (C03Vft.vft_fields st p v d) (C03Whole.declared_size d)
+      (C03Whole.declared_align d) (C03Whole.is_packed d) = Some (rs_size r, rs_align r).
+Proof. exact C03Vft.C03_vft_type_build_size_align. Qed.
+Print Assumptions C03_vft_type_build_size_align.
+
+Theorem C03_vft_type_build_rejects_otherwise :
+  forall (st : sstate) (p : path) (v : vis) (d : gtypedef),
+    C03Vft.class_vft_okb st p v d = true ->
+    ~
+    (C03Vft.attrs_vft_okb d = true /\
+     C03Vft.vtable_okb_of st p d = true /\
+     C03Vft.C.realisable (C03Vft.vft_ptr st p v d) (C03Vft.vft_fields st p v d)
+       (C03Whole.declared_size d) (C03Whole.declared_align d) (C03Whole.is_packed d) /\
+     C03Vft.vft_extras_okb st p v d = true) ->
+    exists (s : sstate) (msg : string), type_build st p v d = (s, Err msg).
+Proof. exact C03Vft.C03_vft_type_build_rejects_otherwise. Qed.
+Print Assumptions C03_vft_type_build_rejects_otherwise.
+
+Theorem C03_own_vftable_never_defaultable :
+  forall (st : sstate) (p : path) (v : vis) (d : gtypedef),
+    C03Vft.class_vft_okb st p v d = true ->
+    C03Whole.is_defaultable d = true ->
+    (forall (m : smodule) (sattrs : list gattr) (gfs : list gfunction) (rest : list gstatement),
+     C03Whole.owner_module st p = Some m ->
+     C03Vft.vft_stmt d = Some (sattrs, gfs, rest) ->
+     C03Vft.vft_fb (st_reg st) (module_scope m) rest = None) ->
+    exists (s : sstate) (msg : string), type_build st p v d = (s, Err msg).
+Proof. exact C03Vft.own_vftable_never_defaultable. Qed.
+Print Assumptions C03_own_vftable_never_defaultable.
+
+Theorem C03_vftable_block_converts_iff :
+  forall (R : registry) (scope : list path) (sattrs : list gattr) (fs : list gfunction),
+    if C03Vft.vtable_okb R scope sattrs fs
+    then exists out : list sfunction, C03Vft.vft_first R scope sattrs fs = Ok out
+    else exists msg : string, C03Vft.vft_first R scope sattrs fs = Err msg.
+Proof. exact C03Vft.vtable_dec. Qed.
+Print Assumptions C03_vftable_block_converts_iff.
